@@ -1,10 +1,55 @@
 package c20
 
 import (
+	"encoding/json"
+	"os"
+	"path/filepath"
+	"strings"
 	"testing"
 
+	ck "verifharness/chainkit"
 	"verifharness/vt"
 )
 
 func TestProp(t *testing.T)   { vt.RunAll(t, 25) }
 func TestReplay(t *testing.T) { vt.ReplayAll(t) }
+
+// TestKnownFindings re-confirms the listed known finding of the chainkit grammar (ck.KnownOracleOrigTx: an oracle response
+// to a request whose original transaction the state-synchronised node never received FAULTs there and HALTs on the
+// source): the recorded case replays/C20/known/<key>.json is run with the exclusion switched off.
+func TestKnownFindings(t *testing.T) {
+	if !vt.Known(ck.KnownOracleOrigTx) {
+		t.Logf("%s: not listed as known: TestProp generates the shape itself", ck.KnownOracleOrigTx)
+		return
+	}
+	root := os.Getenv("VERIF_ROOT")
+	if root == "" {
+		root = "/verif"
+	}
+	raw, err := os.ReadFile(filepath.Join(root, "replays", "C20", "known", ck.KnownOracleOrigTx+".json"))
+	if err != nil {
+		t.Logf("%s: %v", ck.KnownOracleOrigTx, err)
+		return
+	}
+	var env struct {
+		Case SCase `json:"case"`
+	}
+	if err := json.Unmarshal(raw, &env); err != nil {
+		t.Fatal(err)
+	}
+	ck.StrictKnown = true
+	err = checkSCase(env.Case, &vt.Obs{})
+	ck.StrictKnown = false
+	if err == nil {
+		t.Logf("%s: the recorded case no longer fails", ck.KnownOracleOrigTx)
+		return
+	}
+	s := err.Error()
+	if i := strings.IndexByte(s, '\n'); i >= 0 {
+		s = s[:i]
+	}
+	if len(s) > 700 {
+		s = s[:700] + "..."
+	}
+	vt.KnownFinding(ck.KnownOracleOrigTx, s)
+}
